@@ -56,8 +56,11 @@ func (p PX) String() string {
 		}
 		return p.V.Oct().String()
 	case "fn":
-		if len(p.Args) == 2 && !isIdent(p.Name) {
+		if len(p.Args) == 2 && (!isIdent(p.Name) || p.Name == "in" || p.Name == "like") {
 			return "(" + a(0) + " " + p.Name + " " + a(1) + ")"
+		}
+		if len(p.Args) == 1 && (p.Name == "is null" || p.Name == "is not null") {
+			return "(" + a(0) + " " + p.Name + ")"
 		}
 		return p.Name + "(" + list() + ")"
 	case "and":
@@ -260,6 +263,7 @@ type walkInfo struct {
 	calls     []callInfo
 	exprTypes map[string]bool
 	shapeDiff string
+	utf8Diff  string // a string constant that is not valid UTF-8 arrived with U+FFFD in place of the offending bytes
 }
 
 // walk compares the expression before and after transport node by node.
@@ -283,7 +287,14 @@ func walk(a, b physical.Expression, w *walkInfo) {
 		}
 	case physical.ExpressionTypeConstant:
 		if d := diffValue(a.Constant.Value, b.Constant.Value); d != "" {
-			w.shapeDiff = "constant: " + d
+			av, bv := a.Constant.Value, b.Constant.Value
+			if av.TypeID == octosql.TypeIDString && bv.TypeID == octosql.TypeIDString && !utf8.ValidString(av.Str) && bv.Str == strings.ToValidUTF8(av.Str, "\uFFFD") {
+				w.utf8Diff = d
+			} else if av.TypeID == octosql.TypeIDString && bv.TypeID == octosql.TypeIDString && !utf8.ValidString(av.Str) && sameReplaced(av.Str, bv.Str) {
+				w.utf8Diff = d
+			} else {
+				w.shapeDiff = "constant: " + d
+			}
 		}
 	case physical.ExpressionTypeFunctionCall:
 		if a.FunctionCall.Name != b.FunctionCall.Name {
@@ -400,6 +411,22 @@ const (
 	findingUTF8      = "predicate-json-invalid-utf8-constant"
 )
 
+// sameReplaced: got is want with every maximal run of invalid bytes replaced by one or more U+FFFD (encoding/json replaces
+// byte by byte, strings.ToValidUTF8 run by run).
+func sameReplaced(want, got string) bool {
+	var sb strings.Builder
+	for i := 0; i < len(want); {
+		r, n := utf8.DecodeRuneInString(want[i:])
+		if r == utf8.RuneError && n == 1 {
+			sb.WriteString("\uFFFD")
+		} else {
+			sb.WriteString(want[i : i+n])
+		}
+		i += n
+	}
+	return sb.String() == got
+}
+
 func hasInvalidUTF8Const(p PX) bool {
 	if p.Op == "const" && p.V == nil {
 		b, _ := hex.DecodeString(p.Hex)
@@ -434,23 +461,26 @@ func predTransportProp(r *ev.Rec) func(predCase) ev.Outcome {
 		if err != nil {
 			return ev.Fail("predicate %s cannot be transported: %v", c.Pred, err)
 		}
-		if !stable {
-			return ev.Fail("predicate %s: the JSON form changes when it is decoded and encoded again", c.Pred)
-		}
 		if !ok {
 			return ev.Fail("predicate %s uses only functions of this build's function map, but the receiving side reports an unknown function (ok=false)", c.Pred)
 		}
 		w := &walkInfo{exprTypes: map[string]bool{}}
 		walk(pe, got, w)
-		utf8Known := r.Known(findingUTF8) && hasInvalidUTF8Const(c.Pred)
 		if w.shapeDiff != "" {
-			if utf8Known && strings.HasPrefix(w.shapeDiff, "constant: string") {
-				return ev.Outcome{Excluded: findingUTF8, Classes: []string{"excluded_" + findingUTF8}}
-			}
 			return ev.Fail("predicate %s arrives changed: %s", c.Pred, w.shapeDiff)
 		}
+		if w.utf8Diff != "" {
+			// the recorded finding: encoding/json replaces every byte sequence that is not valid UTF-8 by U+FFFD
+			if r.Known(findingUTF8) && hasInvalidUTF8Const(c.Pred) {
+				return ev.Outcome{Excluded: findingUTF8, Classes: []string{"excluded_" + findingUTF8}}
+			}
+			return ev.Fail("predicate %s arrives with a changed constant: %s", c.Pred, w.utf8Diff)
+		}
 		o := ev.Outcome{}
-		typeFnUsed, rebound, lost := false, false, false
+		if !stable {
+			o.Classes = append(o.Classes, "json_text_differs_between_hops")
+		}
+		typeFnUsed, rebound, reboundOther, lost := false, false, false, false
 		for _, ci := range w.calls {
 			o.Classes = append(o.Classes, fmt.Sprintf("ov_%s#%d", ci.name, ci.idx))
 			typeFnUsed = typeFnUsed || ci.typeFn
@@ -460,7 +490,7 @@ func predTransportProp(r *ev.Rec) func(predCase) ev.Outcome {
 				rebound = true
 				if !(ci.typeFn && ci.gotIdx >= 0 && eng.FunctionMap()[ci.name].Descriptors[ci.gotIdx].TypeFn != nil) {
 					// a re-binding that is not "one type-function overload to another of the same name" is outside the recorded finding
-					return ev.Fail("predicate %s: the call of %s was bound to overload #%d by the typechecker and is bound to overload #%d on the receiving side", c.Pred, ci.name, ci.idx, ci.gotIdx)
+					reboundOther = true
 				}
 			}
 		}
@@ -506,7 +536,7 @@ func predTransportProp(r *ev.Rec) func(predCase) ev.Outcome {
 				continue
 			}
 			msg := fmt.Sprintf("predicate %s on row %v evaluates to %s before the plugin boundary and to %s behind it", c.Pred, gen.Octs(row), ra, rb)
-			if rebound && r.Known(findingTypeFn) {
+			if rebound && !reboundOther && r.Known(findingTypeFn) {
 				// the recorded finding: a call of a type-function overload is re-bound to the first type-function overload of
 				// that name. Attributed only if restoring the original bindings (and nothing else) removes the difference.
 				if repaired == nil {
@@ -683,7 +713,7 @@ func unknownFlagProp(r *ev.Rec) func(predCase) ev.Outcome {
 		if ok {
 			if name, bound := allBound(got); !bound {
 				if c.Mut != "rename" && r.Known(findingSignature) {
-					return ev.Outcome{Excluded: findingSignature, Classes: []string{"excluded_" + findingSignature}}
+					return ev.Outcome{Excluded: findingSignature, Classes: []string{"excluded_" + findingSignature, "mut_" + c.Mut, "unknown_signature"}}
 				}
 				return ev.Fail("predicate %s with the signature of call %s altered (%s: no overload of this build has it) is accepted (ok=true) although %s has no function bound: evaluating it calls a nil function", c.Pred, origName, c.Mut, name)
 			}
@@ -744,10 +774,11 @@ var fieldTypePool = []octosql.Type{
 }
 
 type pgen struct {
-	ch     chooser
-	fields []fieldSpec // record frame
-	outer  []fieldSpec // enclosing frame
-	seq    int
+	noAssert bool // arguments of comparison operators must have exactly equal types: no operand that needs a type assertion
+	ch       chooser
+	fields   []fieldSpec // record frame
+	outer    []fieldSpec // enclosing frame
+	seq      int
 }
 
 func (g *pgen) label(s string) string {
@@ -886,14 +917,25 @@ func (g *pgen) arg(want octosql.Type, depth int) PX {
 	case k == 8:
 		switch want.TypeID {
 		case octosql.TypeIDInt:
-			return PX{Op: "field", Name: "a", Args: []PX{g.varOf(func(t octosql.Type) bool { return octosql.NonNullable(t).Equals(objAB) && t.TypeID != octosql.TypeIDNull }, objAB)}}
+			return PX{Op: "field", Name: "a", Args: []PX{g.varOf(func(t octosql.Type) bool {
+				return octosql.NonNullable(t).Equals(objAB) && t.TypeID != octosql.TypeIDNull
+			}, objAB)}}
 		case octosql.TypeIDString:
-			return PX{Op: "field", Name: "b", Args: []PX{g.varOf(func(t octosql.Type) bool { return octosql.NonNullable(t).Equals(objAB) && t.TypeID != octosql.TypeIDNull }, nullable(objAB))}}
+			return PX{Op: "field", Name: "b", Args: []PX{g.varOf(func(t octosql.Type) bool {
+				return octosql.NonNullable(t).Equals(objAB) && t.TypeID != octosql.TypeIDNull
+			}, nullable(objAB))}}
 		}
 		return g.varOf(exact, fallback)
 	default:
+		if (want.TypeID == octosql.TypeIDInt || want.TypeID == octosql.TypeIDString) && !g.noAssert && g.ch.pick(2, g.label("assert")) == 0 {
+			// a variable of type Int | String or Any where an Int or String is wanted: the typechecker wraps it in a type assertion
+			wide := []octosql.Type{intOrStr, octosql.Any, octosql.TypeSum(intOrStr, octosql.Null)}[g.ch.pick(3, g.label("wide"))]
+			return g.varOf(func(t octosql.Type) bool { return t.Equals(wide) }, wide)
+		}
 		if want.TypeID == octosql.TypeIDInt || want.TypeID == octosql.TypeIDString {
-			return PX{Op: "cast", TID: int(want.TypeID), Args: []PX{g.varOf(func(t octosql.Type) bool { return octosql.NonNullable(t).Equals(intOrStr) && t.TypeID != octosql.TypeIDNull }, intOrStr)}}
+			return PX{Op: "cast", TID: int(want.TypeID), Args: []PX{g.varOf(func(t octosql.Type) bool {
+				return octosql.NonNullable(t).Equals(intOrStr) && t.TypeID != octosql.TypeIDNull
+			}, intOrStr)}}
 		}
 		return g.varOf(exact, fallback)
 	}
@@ -908,6 +950,15 @@ func isListT(t octosql.Type) bool {
 // call builds a call that the typechecker resolves to the given overload; it returns the non-nullable result type.
 func (g *pgen) call(ov ovRef, depth int) (PX, octosql.Type) {
 	d := eng.FunctionMap()[ov.name].Descriptors[ov.idx]
+	if ov.name == "*" && (ov.idx == 4 || ov.idx == 5) {
+		// string repetition: a small literal count (the function builds strings of up to 2 GB otherwise)
+		cnt := gen.Int(int64(g.ch.pick(6, g.label("repeat"))))
+		args := []PX{g.arg(octosql.String, 0), {Op: "const", V: &cnt}}
+		if ov.idx == 5 {
+			args[0], args[1] = args[1], args[0]
+		}
+		return PX{Op: "fn", Name: ov.name, Args: args}, octosql.String
+	}
 	if d.TypeFn == nil {
 		args := make([]PX, len(d.ArgumentTypes))
 		for i, at := range d.ArgumentTypes {
@@ -926,7 +977,9 @@ func (g *pgen) call(ov ovRef, depth int) (PX, octosql.Type) {
 		return PX{Op: "tuple", Args: args}
 	}
 	tupleVar := func() PX {
-		return g.varOf(func(t octosql.Type) bool { return octosql.NonNullable(t).TypeID == octosql.TypeIDTuple && t.TypeID != octosql.TypeIDNull }, tupleIS)
+		return g.varOf(func(t octosql.Type) bool {
+			return octosql.NonNullable(t).TypeID == octosql.TypeIDTuple && t.TypeID != octosql.TypeIDNull
+		}, tupleIS)
 	}
 	listVar := func(of octosql.Type) PX {
 		return g.varOf(func(t octosql.Type) bool {
@@ -937,13 +990,19 @@ func (g *pgen) call(ov ovRef, depth int) (PX, octosql.Type) {
 	switch ov.name {
 	case "<", "<=", ">", ">=":
 		t := comparable[g.ch.pick(len(comparable), g.label("cmpt"))]
-		return fn(g.arg(t, depth), g.arg(t, depth)), octosql.Boolean
+		old := g.noAssert
+		g.noAssert = true
+		a, b := g.arg(t, depth), g.arg(t, depth)
+		g.noAssert = old
+		return fn(a, b), octosql.Boolean
 	case "len":
 		switch ov.idx {
 		case 1:
 			return fn(g.varOf(isListT, listOf(elem))), octosql.Int
 		case 2:
-			return fn(g.varOf(func(t octosql.Type) bool { return octosql.NonNullable(t).TypeID == octosql.TypeIDStruct && t.TypeID != octosql.TypeIDNull }, objAB)), octosql.Int
+			return fn(g.varOf(func(t octosql.Type) bool {
+				return octosql.NonNullable(t).TypeID == octosql.TypeIDStruct && t.TypeID != octosql.TypeIDNull
+			}, objAB)), octosql.Int
 		default:
 			if g.ch.pick(2, g.label("lentuple")) == 0 {
 				return fn(tupleVar()), octosql.Int
@@ -971,7 +1030,9 @@ func (g *pgen) boolOf(px PX, ty octosql.Type, name string) PX {
 	if name == "now" {
 		// now() differs between two evaluations: only compared with instants far from the present
 		op := []string{"<", "<=", ">", ">="}[g.ch.pick(4, g.label("nowop"))]
-		return g.fnNamed(op, px, g.varOf(func(t octosql.Type) bool { return octosql.NonNullable(t).Equals(octosql.Time) && t.TypeID != octosql.TypeIDNull }, octosql.Time))
+		return g.fnNamed(op, px, g.varOf(func(t octosql.Type) bool {
+			return octosql.NonNullable(t).Equals(octosql.Time) && t.TypeID != octosql.TypeIDNull
+		}, octosql.Time))
 	}
 	if ty.TypeID == octosql.TypeIDBoolean && g.ch.pick(3, g.label("boolraw")) != 0 {
 		return px
@@ -984,7 +1045,11 @@ func (g *pgen) boolOf(px PX, ty octosql.Type, name string) PX {
 		return g.fnNamed("is not null", px)
 	case k == 2 && scalar:
 		op := []string{"<", "<=", ">", ">="}[g.ch.pick(4, g.label("wrapop"))]
-		return g.fnNamed(op, px, g.arg(ty, 0))
+		old := g.noAssert
+		g.noAssert = true
+		rhs := g.arg(ty, 0)
+		g.noAssert = old
+		return g.fnNamed(op, px, rhs)
 	case k == 3 && scalar:
 		n := 1 + g.ch.pick(3, g.label("wrapin"))
 		items := make([]PX, n)
